@@ -277,9 +277,12 @@ def run_unit(unit_path, repo=None, twin=True):
         open(gent, "w").write("\n".join(wt.lines) + "\n")
         procs.append((wt, gent))
     from concurrent.futures import ThreadPoolExecutor
+
+    def _verus(g, nerr):
+        return _run(["verus", g, "--multiple-errors", str(nerr), "--output-json", "--time", "--", "--error-format=json"], d, VERUS_TIMEOUT)
     with ThreadPoolExecutor(max_workers=2) as ex:
-        futs = [ex.submit(_run, ["verus", g, "--multiple-errors", "50", "--output-json", "--time", "--", "--error-format=json"], d, VERUS_TIMEOUT)
-                for _, g in procs]
+        # the twin only has to show ONE failing probe per function: a small error budget keeps it cheap
+        futs = [ex.submit(_verus, procs[0][1], 50)] + ([ex.submit(_verus, procs[1][1], 3)] if twin else [])
         outs = [f.result() for f in futs]
     rc, out, err, secs = outs[0]
     open(os.path.join(d, name + ".stdout.json"), "w").write(out)
@@ -339,6 +342,19 @@ def run_unit(unit_path, repo=None, twin=True):
         refuted = {f["item"] for f in ft if "VACUITY" in f["labels"]}
         need = {i for i, it in enumerate(wt.items) if it.get("has_body")}
         missing = sorted(need - refuted)
+        if missing:
+            # a function with other failing obligations may have used up the small budget: full run
+            rct, outt, errt, secst = _verus(procs[1][1], 50)
+            if rct is None:
+                res.update(status="undecided", reason="verus timeout on vacuity twin")
+                return res
+            dt, rawt = parse_diags(errt)
+            ft, hardt = classify(dt, wt, gent)
+            if hardt:
+                res.update(status="undecided", reason="vacuity twin: %s: %s" % (hardt[0]["kind"], hardt[0]["message"]))
+                return res
+            refuted = {f["item"] for f in ft if "VACUITY" in f["labels"]}
+            missing = sorted(need - refuted)
         res["vacuity_twins_rejected"] = len(need & refuted)
         if missing:
             res.update(status="undecided", reason="vacuity: `ensures false` was ACCEPTED for %s (contradictory precondition or assumption)"
